@@ -107,6 +107,7 @@ func generalPlan(tier string, faults bool) []PlanItem {
 		PlanItem{scnRestartLate("restart-late/stop-K1", K1, Item{Do: "stop"}), d},
 		PlanItem{scnRestartLate("restart-late/stopctx-K1", K1, Item{Do: "stopctx"}), d},
 		PlanItem{scnRestartFollower("restart-follower/stop-K1", K1, Item{Do: "stop"}), d + 1},
+		PlanItem{scnFailoverTwice("failover-twice-K1", K1), d},
 		PlanItem{scnRestart2("restart2/stop-then-stopdel-K1", K1, Item{Do: "stop"}), d},
 		PlanItem{scnRestart2("restart2/stopctx-then-stopdel-K1", K1, Item{Do: "stopctx"}), d},
 		PlanItem{dropAll(scnRestart2("restart2/stop-then-stopdel-K1-dropall", K1, Item{Do: "stop"})), d})
@@ -124,6 +125,8 @@ func generalPlan(tier string, faults bool) []PlanItem {
 			PlanItem{scnPreemptStop("preempt-then-stopdel-K1", K1), d},
 			PlanItem{scnPreemptDemotedStop("preempt-demoted-then-stopdel-K1-dropall", K1), d},
 			PlanItem{scnHealthWindowTakeover("takeover-inside-health-check-K1", K1), d},
+			PlanItem{scnFollowerTakeover("follower-takeover-K1", K1), d},
+			PlanItem{scnReelectLinger("reelect-lingering-callbacks-K1", K1), d},
 			PlanItem{scnFailoverTamper("failover-then-outside-delete-K1", K1, "delete"), d},
 			PlanItem{scnFailoverTamper("failover-then-outside-put-K1", K1, "put"), d},
 			PlanItem{scnPrio("preempt-chain-123-K1", []prioOpt{{1, false}, {2, true}, {3, true}}, []string{"A", "B", "C"}, false), d},
@@ -200,5 +203,40 @@ func scnHealthWindowTakeover(name string, k kfn) *Scenario {
 	tTick := tDel + 55*ms + 3*s.H
 	s.Script = append(s.Script, Item{At: tTick + 10*ms, Actor: "startB", Do: "start", Inst: "B"})
 	s.Horizon = tTick + 4*s.H
+	return s.faultFree()
+}
+
+// follower-takeover: B (priority 2, takeover) follows a record that names Z with an equal
+// priority (written from outside, nobody refreshes it); the record is then rewritten twice
+// in a row with a lower priority, so that B's watcher starts two takeover rounds that
+// overlap. Replies may arrive later than the store applied the operation (SplitApply).
+func scnFollowerTakeover(name string, k kfn) *Scenario {
+	s := k(&Scenario{Name: name})
+	s.Insts = []InstSpec{{ID: "B", Priority: 2, Takeover: true}}
+	s.Script = []Item{
+		{At: 0, Actor: "outside", Do: "put", Payload: `{"id":"Z","token":"tz","priority":2}`, Fixed: true},
+		{At: 1 * ms, Actor: "startB", Do: "start", Inst: "B", Fixed: true},
+		{At: 100 * ms, Actor: "outside", Do: "put", Payload: `{"id":"Z","token":"tz","priority":1}`, Fixed: true},
+		{At: 100 * ms, Actor: "outside", Do: "put", Payload: `{"id":"Z","token":"tz","priority":1}`, Fixed: true},
+	}
+	s.Horizon = 100*ms + 3*s.H
+	s = s.faultFree()
+	s.SplitApply = true
+	s.WatchFirst = true
+	s.RandMenu = nil
+	s.DevFrom, s.DevUntil = 100*ms, 190*ms
+	return s
+}
+
+// reelect-lingering-callbacks: A (alone) loses its record to an outside delete, is demoted
+// by its next heartbeat and re-acquires the vacant key 55 ms later, while the previous
+// term's OnPromote callback is still cleaning up (it returns 300 ms after its context was
+// cancelled) and OnDemote takes 150 ms.
+func scnReelectLinger(name string, k kfn) *Scenario {
+	s := k(&Scenario{Name: name})
+	s.Insts = []InstSpec{{ID: "A", PromoteLinger: 300 * ms, DemoteDur: 150 * ms}}
+	s.Script = starts("A")
+	s.Script = append(s.Script, Item{At: 1*s.H + s.H/2 + 7*us, Actor: "outside", Do: "delete"})
+	s.Horizon = 2*s.H + 5*s.H
 	return s.faultFree()
 }
